@@ -96,7 +96,8 @@ FamM == {[id |-> "M", cmd |-> c, inp |-> {"yaml", "FORCE_SETS"} \\cup q,
           s |-> [SBase EXCEPT !.mode = m, !.tprop = t[1], !.tdisp = t[2], !.tdm = t[3], !.pdos = t[4],
                               !.dos = t[5], !.moment = t[6], !.wmesh = w, !.mesh_hdf5 = h, !.band_hdf5 = h,
                               !.qp_hdf5 = h, !.readq = rq, !.qgiven = qg, !.cif = t[3] /\\ w]] :
-         c \\in Cmds, q \\in {{}, {"QPOINTS"}}, m \\in {"none", "mesh", "band", "band_mesh", "qpoints"},
+         c \\in Cmds, q \\in {{}, {"QPOINTS"}},
+         m \\in {"none", "mesh", "band", "band_mesh", "qpoints", "anime", "modulation", "irreps"},
          t \\in %s, w \\in B, h \\in %s, rq \\in B, qg \\in B}
 FamP == {[id |-> "P", cmd |-> c, inp |-> {"yaml", "FORCE_SETS"},
           s |-> [SBase EXCEPT !.mode = "mesh", !.writefc = w, !.wfmt_hdf5 = h, !.spg = g, !.fullfc = u, !.cutoff = k,
@@ -223,7 +224,8 @@ def abstract_settings(st):
         dim=st.supercell_matrix is not None,
         disp=bool(st.create_displacements or st.random_displacements),
         fsets=bool(st.create_force_sets), fsz=bool(st.create_force_sets_zero),
-        mode=st.run_mode if st.run_mode in ("mesh", "band", "band_mesh", "qpoints") else "none",
+        mode=st.run_mode if st.run_mode in ("mesh", "band", "band_mesh", "qpoints", "anime", "modulation",
+                                            "irreps") else "none",
         nac=bool(st.is_nac), fcsym=bool(st.fc_symmetry),
         fccalc=(st.fc_calculator or "").lower(),
         readfc=bool(st.read_force_constants), writefc=bool(st.write_force_constants),
@@ -294,6 +296,8 @@ def abstract_inputs(setup, cmd, st, pos, force_files):
 
 
 SUPERCELL_FILES = ("SPOSCAR", "POSCAR-", "supercell")
+MODULATED_FILES = ("MPOSCAR", "Munitcell", "Msupercell")
+ANIME_FILES = ("anime.", "APOSCAR-")
 
 
 def abstract_outputs(written):
@@ -301,6 +305,10 @@ def abstract_outputs(written):
     for f in written:
         if f.startswith(SUPERCELL_FILES):
             out.add("SUPERCELLS")
+        elif f.startswith(MODULATED_FILES):
+            out.add("MODULATED")
+        elif f.startswith(ANIME_FILES):
+            out.add("ANIME")
         else:
             out.add(f)
     return out
@@ -523,6 +531,35 @@ class Replay:
 
     def c_run_moment(self, arg):
         pass  # printed only
+
+    def c_run_modulation(self, arg):
+        m = self.st.modulation
+        self.ph.run_modulations(m["dimension"], m["modulations"], delta_q=m.get("delta_q"),
+                                derivative_order=m["order"], nac_q_direction=self.st.nac_q_direction)
+        u, sc = self.ph.get_modulations_and_supercell()
+        self.res["modulation"] = dict(u=np.array(u), supercell=sc, cells=self.ph.get_modulated_supercells())
+
+    def c_run_irreps(self, arg):
+        st = self.st
+        self.ph.set_irreps(st.irreps_q_point, is_little_cogroup=st.is_little_cogroup,
+                           nac_q_direction=st.nac_q_direction, degeneracy_tolerance=st.irreps_tolerance)
+        self.res["irreps"] = self.ph.irreps
+
+    def c_run_anime(self, arg):
+        """the library writes the animation file itself: written into a scratch directory"""
+        st = self.st
+        d = tempfile.mkdtemp(prefix="c18anime_")
+        cwd = os.getcwd()
+        os.chdir(d)
+        try:
+            if st.anime_type == "v_sim":
+                self.ph.write_animation(q_point=st.anime_qpoint, anime_type="v_sim", amplitude=st.anime_amplitude)
+            else:
+                self.ph.write_animation(anime_type=st.anime_type, band_index=st.anime_band_index,
+                                        amplitude=st.anime_amplitude, num_div=st.anime_division, shift=st.anime_shift)
+        finally:
+            os.chdir(cwd)
+        self.res["anime_dir"] = d
 
     def c_summary(self, arg):
         self.res["summary"] = True
@@ -809,9 +846,85 @@ def compare_outputs(setup, rp, res, written, cmp, outdir):
             dec = C.dat_decimals(path(f))
             P(f + ":frequency", a[:, 0], res["pdos"]["frequency_points"], dec)
             P(f + ":pdos", a[:, 1:].T, res["pdos"]["projected_dos"], dec)
+        elif f == "modulation.yaml" and "modulation" in res:
+            cmp.checked.add(f)
+            y = C.load_yaml(path(f))
+            t = _text(path(f))
+            m = res["modulation"]
+            cmp.close(f + ":dimension", y["supercell"]["dimension"], np.array(rp.st.modulation["dimension"]).reshape(-1, 3)
+                      if len(rp.st.modulation["dimension"]) == 9 else np.diag(rp.st.modulation["dimension"]), 0)
+            cmp.equal(f + ":number of modulations", len(y["modulations"]), len(m["u"]))
+            dec = C.decimals(t, "displacements")
+            for i, (ym, u) in enumerate(zip(y["modulations"], m["u"])):
+                d = np.array(ym["displacements"], dtype=float)
+                P(f + ":displacements re", d[:, 0], u.real.ravel(), dec)
+                P(f + ":displacements im", d[:, 1], u.imag.ravel(), dec)
+                cmp.equal(f + ":band", ym["band"], rp.st.modulation["modulations"][i][1] + 1)
+            if setup.calc == "vasp":
+                for i, cell in enumerate(m["cells"]):
+                    lines = _text(path("MPOSCAR-%03d" % (i + 1))).split("\n")
+                    pos = np.array([[float(x) for x in l.split()[:3]] for l in lines[8:8 + len(cell)]])
+                    diff = pos - cell.scaled_positions
+                    diff -= np.rint(diff)
+                    cmp.close(f + ":MPOSCAR-%03d positions" % (i + 1), diff, np.zeros_like(diff), 0.6e-15)
+            cmp.equal(f + ":number of structure files", len([w for w in written if w.startswith(MODULATED_FILES)]),
+                      len(m["cells"]) + 2)
+        elif f == "irreps.yaml" and "irreps" in res:
+            cmp.checked.add(f)
+            y = C.load_yaml(path(f))
+            t = _text(path(f))
+            ir = res["irreps"]
+            P(f + ":q-position", y["q-position"], ir.qpoint, C.decimals(t, "q-position"))
+            cmp.equal(f + ":point_group", str(y["point_group"]), str(ir._pointgroup_symbol))
+            cmp.equal(f + ":band_indices", [list(x["band_indices"]) for x in y["normal_modes"]],
+                      [[int(b) + 1 for b in s_] for s_ in ir.band_indices])
+            cmp.freq(f + ":frequencies", [x["frequency"] for x in y["normal_modes"]],
+                     [ir._freqs[s_[0]] for s_ in ir.band_indices], C.decimals(t, "frequency"))
+            cmp.close(f + ":rotations", [r["matrix"] for r in y["rotations"]], ir.conventional_rotations, 0)
+            for i, x in enumerate(y["normal_modes"]):
+                ch = np.array(x["characters"], dtype=float)
+                ref = np.array(ir.characters[i])
+                cmp.close(f + ":characters magnitude", ch[:, 0], np.rint(np.abs(ref)), 0)
+                big = np.abs(ref) > 0.5
+                dphi = (ch[big, 1] - (np.angle(ref[big]) / np.pi * 180) % 360 + 180) % 360 - 180
+                cmp.close(f + ":characters phase", dphi, np.zeros(len(dphi)), 0.06)
+            if ir._ir_labels:
+                cmp.equal(f + ":ir_labels", [x.get("ir_label") for x in y["normal_modes"]], list(ir._ir_labels))
+            cmp.equal(f + ":irreps section", "irreps" in y, bool(rp.st.show_irreps))
+        elif f.startswith(ANIME_FILES) and "anime_dir" in res:
+            cmp.checked.add("ANIME")
+            ref = os.path.join(res["anime_dir"], f)
+            if not os.path.exists(ref):
+                cmp.bad.append("%s: the library does not write this file" % f)
+            else:
+                compare_text(cmp, f, _text(path(f)), _text(ref))
         elif f in ("phonopy.yaml", "phonopy_params.yaml") and res.get("summary"):
             cmp.checked.add(f)
             compare_summary(setup, rp, path(f), cmp, f)
+    if "anime_dir" in res:
+        libfiles = sorted(os.listdir(res["anime_dir"]))
+        cmp.equal("ANIME:files", sorted(w for w in written if w.startswith(ANIME_FILES)), libfiles)
+        shutil.rmtree(res["anime_dir"], ignore_errors=True)
+
+
+def compare_text(cmp, label, a, b):
+    """Two text files token by token: numbers at the printed precision, everything else verbatim."""
+    import re
+
+    ta, tb = a.split(), b.split()
+    if len(ta) != len(tb):
+        cmp.bad.append("%s:text: %d tokens vs %d" % (label, len(ta), len(tb)))
+        return
+    num = re.compile(r"^-?\d+\.\d+$")
+    for x, y in zip(ta, tb):
+        if x == y:
+            continue
+        if num.match(x) and num.match(y) and len(x.split(".")[1]) == len(y.split(".")[1]):
+            dec = len(x.split(".")[1])
+            if abs(float(x) - float(y)) <= 1.2 * 10.0 ** (-dec):
+                continue
+        cmp.bad.append("%s:text: %s vs %s" % (label, x, y))
+        return
 
 
 def compare_summary(setup, rp, fpath, cmp, f):
@@ -1027,6 +1140,17 @@ def workflow_cases(su, full):
         add("tdm", cmd, base + ["--mesh"] + M + ["--tdm", "--tmax", "300", "--tstep", "150", "--fmax", fcut])
         add("tdm-cif", cmd, base + ["--mesh"] + M + ["--tdm-cif", "300"])
         add("moment", cmd, base + ["--mesh"] + M + ["--moment"])
+        add("modulation", cmd, base + ["--modulation", "2 4 1, 0.5 0.25 0 1 2.0, 0.5 0.25 0 %d 1.0 90"
+                                       % (3 * len(su.symbols))])
+        add("irreps-gamma", cmd, base + ["--irreps", "0", "0", "0"])
+        add("irreps-x-lcg", cmd, base + ["--irreps", "1/2", "0", "0", "1e-3", "--show-irreps", "--lcg"])
+        add("anime-vsim", cmd, base + ["--anime", "0", "0.5", "0", "3.0"])
+        add("write-anime-conf", cmd, None, before=lambda su: [open(os.path.join(su.dir, "anime_%s.conf" % t), "w").write(
+            "ANIME_TYPE = %s\nANIME = 2 3 4\n" % t.upper()) for t in ("poscar", "xyz", "jmol")])
+        for t in ("poscar", "xyz", "jmol"):
+            add("anime-" + t, cmd, (["anime_%s.conf" % t] if cmd == "phonopy" else base + ["--config", "anime_%s.conf" % t]))
+        add("rm-anime", cmd, None, before=lambda su: [os.remove(os.path.join(su.dir, f)) for f in os.listdir(su.dir)
+                                                      if f.startswith(ANIME_FILES + MODULATED_FILES)])
         add("writefc-full-hdf5", cmd, base + ["--writefc", "--full-fc", "--writefc-format", "hdf5"])
         if cmd == "phonopy":
             add("readfc-hdf5", cmd, ["--readfc", "--readfc-format", "hdf5", "--mesh"] + M)
